@@ -7,7 +7,11 @@ ROOT = os.path.dirname(os.path.dirname(os.path.abspath(__file__)))
 rnd = sys.argv[1]
 base = open("/tmp/seed3-prompt-C01.txt").read() if os.path.exists("/tmp/seed3-prompt-C01.txt") else None
 props = [json.loads(l) for l in open(os.path.join(ROOT, "properties.jsonl")) if l.strip()]
-EMPH = """For this round favour, in this order: (a) ERROR, CLEANUP AND END-OF-SESSION PATHS that run only after something else went wrong or finished (the second failure, a retry, a half-finished exchange followed by a normal one, teardown while something is buffered); (b) effects that ACCUMULATE OVER A LONG HISTORY (a counter, cache, pool, reused buffer or table: the 20th or 300th operation, wrap-around, growth past a default capacity, an entry that expires or is evicted); (c) SHARED STATE between two connections, streams or goroutines where the scope of a lock, the moment of a copy or the order of two updates changed; (d) the EXPORTED API used directly by an embedding program in a way the bundled proxy binary never does (constructors and Set* methods called in another order or after traffic started, zero values, options combined, a modifier/handler/processor reused for several proxies or connections); (e) BOUNDARIES of sizes and counts the code treats specially (exactly a buffer size, one past it, zero, the maximum a field can hold). The change must still be a clear violation of the property as stated - not a matter of interpretation."""
+EMPH4 = """For this round favour, in this order: (a) ERROR, CLEANUP AND END-OF-SESSION PATHS that run only after something else went wrong or finished (the second failure, a retry, a half-finished exchange followed by a normal one, teardown while something is buffered); (b) effects that ACCUMULATE OVER A LONG HISTORY (a counter, cache, pool, reused buffer or table: the 20th or 300th operation, wrap-around, growth past a default capacity, an entry that expires or is evicted); (c) SHARED STATE between two connections, streams or goroutines where the scope of a lock, the moment of a copy or the order of two updates changed; (d) the EXPORTED API used directly by an embedding program in a way the bundled proxy binary never does (constructors and Set* methods called in another order or after traffic started, zero values, options combined, a modifier/handler/processor reused for several proxies or connections); (e) BOUNDARIES of sizes and counts the code treats specially (exactly a buffer size, one past it, zero, the maximum a field can hold). The change must still be a clear violation of the property as stated - not a matter of interpretation."""
+EMPH5 = """For this round favour, in this order: (a) DATA-DEPENDENT behaviour: the change misbehaves only for particular CONTENT - byte values that also mean something to a parser on the path (CR, LF, NUL, 0x16, '%', a line that looks like a chunk size, a header block or a frame header inside a body), values at the edge of a numeric field (lengths, ports, window sizes, status codes, priorities, indices near 2^31 / 2^32 / 2^53 / 2^63, negative or zero), names that differ only in case, whitespace, a trailing dot or Unicode normalisation, empty values and repeated fields; (b) TIME: deadlines, idle timeouts, expiry, validity windows, retries, 'now' read twice, ordering of two timestamps, durations that are zero, negative or very large (use small configured durations so that a demonstration runs in seconds); (c) INTERPLAY with a neighbouring feature that is normally tested separately (logging + shaping + MITM + h2 + filters + downstream proxy + API endpoints together: the change is in the seam between two of them); (d) RESOURCE BOOKKEEPING that only shows after many operations or at teardown (goroutines, file descriptors, connections, map entries, buffers, timers that are never stopped or are stopped twice); (e) an 'obviously safe' CLEAN-UP: removing a seemingly redundant copy, lock, nil check, flush, Close, bounds check or default case. The change must still be a clear violation of the property as stated - not a matter of interpretation, and its trigger must be something a legitimate caller or peer may do (no reconfiguration of a proxy while it serves traffic, no concurrent use of types the unchanged tree does not synchronise).
+
+Also: while reading the code, note anything in the UNCHANGED tree that looks to you like an existing violation of this property (a hang, a leak, a crash, a wrong result for some legal input). List such observations at the end of your final message under 'Observations about the unchanged tree' - unverified is fine, one or two sentences each with the code site; do not spend more than a few minutes on them."""
+EMPH = {"4": EMPH4, "5": EMPH5}.get(rnd, EMPH5)
 for p in props:
     pid = p["id"]
     prev = []
